@@ -1,5 +1,5 @@
 #!/bin/bash
-# setup: warm the Go build cache for every check binary (offline, from files on disk only).
+# setup: warm the Go build cache for every claimed check binary (offline, from files on disk only).
 set -u
 export VERIF_DIR="${VERIF_DIR:-/verif}" VERIF_REPO="${VERIF_REPO:-/repo}"
 export GOFLAGS=-mod=mod GOPROXY=off GOSUMDB=off GOTOOLCHAIN=local
@@ -7,7 +7,13 @@ mkdir -p "$VERIF_DIR/bin" "$VERIF_DIR/build" "$VERIF_DIR/evidence"
 OV="$VERIF_DIR/build/overlay.setup.json"
 python3 "$VERIF_DIR/tools/mkoverlay.py" "$OV" || exit 1
 cd "$VERIF_REPO" || exit 1
-go build -overlay "$OV" -tags verif -o /dev/null ./internal/zzverif/... || exit 1
 go build -o /dev/null . || exit 1
+rc=0
+for f in "$VERIF_DIR"/tools/checks.d/*.json; do
+  id=$(basename "$f" .json | tr 'A-Z' 'a-z')
+  [ -f "$VERIF_DIR/engine/checks/$id/prebuild.sh" ] && continue   # built with its own overlay at run time
+  go build -overlay "$OV" -tags verif -o /dev/null "./internal/zzverif/checks/$id" || rc=1
+done
 rm -f "$OV"
-echo setup ok
+[ $rc = 0 ] && echo setup ok
+exit $rc
